@@ -144,6 +144,9 @@ def _chunked(data, pos, body):
             raise _Reject("body", "chunk-size-not-hex")
         n = int(size, 16)
         if n == 0:
+            # an unterminated trailer block cannot be judged: incompleteness comes first
+            if data[pos:pos + 2] != b"\r\n" and data.find(b"\r\n\r\n", pos) < 0:
+                raise _Incomplete("body")
             trailers, pos = _field_lines(data, pos, "body")
             return bytes(body), trailers, pos
         if len(data) - pos < n:
